@@ -412,11 +412,40 @@ func realSend(cs uint64, did uint64, files []fileDef, m pb.Message) (chunks []pb
 	return chunks, ""
 }
 
+func extSizes(m pb.Message) string {
+	var l []string
+	for _, f := range m.Snapshot.Files {
+		l = append(l, fmt.Sprint(f.FileSize))
+	}
+	return "[" + strings.Join(l, ",") + "]"
+}
+
 func runSender(c *rcase, out *vh.LineWriter, st *vh.Stats) {
 	chunks, failure := realSend(c.cs, c.did, c.files, c.msg)
+	// is the message consistent with the files: every announced file exists (the last one
+	// written under a path wins) with exactly the announced, non-zero size
+	onDisk := map[string]int{}
+	for _, f := range c.files {
+		onDisk[f.path] = len(f.data)
+	}
+	consistent := c.msg.Snapshot.FileSize > 0 && onDisk[c.msg.Snapshot.Filepath] == int(c.msg.Snapshot.FileSize)
+	if _, ok := onDisk[c.msg.Snapshot.Filepath]; !ok {
+		consistent = false
+	}
+	seen := map[string]bool{c.msg.Snapshot.Filepath: true}
+	for _, f := range c.msg.Snapshot.Files {
+		if n, ok := onDisk[f.Filepath]; !ok || f.FileSize == 0 || n != int(f.FileSize) || seen[f.Filepath] {
+			consistent = false
+		}
+		seen[f.Filepath] = true
+	}
 	if failure != "" {
 		out.Printf("%s %s\n", c.id, failure)
 		st.Count("send-" + failure)
+		if consistent {
+			st.Violation(c.id, fmt.Sprintf("SPLIT-PANIC the sender failed on a message whose files all exist with the announced sizes (chunk size %d, main %d bytes, external %s)",
+				c.cs, c.msg.Snapshot.FileSize, extSizes(c.msg)))
+		}
 		st.Case(c.id, false, "")
 		return
 	}
@@ -430,6 +459,9 @@ func runSender(c *rcase, out *vh.LineWriter, st *vh.Stats) {
 		if ch.ChunkId != uint64(i) || ch.ChunkCount != uint64(len(chunks)) || uint64(len(ch.Data)) != ch.ChunkSize ||
 			ch.BinVer != raftio.TransportBinVersion || ch.DeploymentId != c.did {
 			st.Violation(c.id, fmt.Sprintf("SPLIT chunk %d has inconsistent id/count/size/binver/did", i))
+		}
+		if len(ch.Data) == 0 || ch.ChunkSize > c.cs {
+			st.Violation(c.id, fmt.Sprintf("SPLIT chunk %d carries %d bytes (chunk size %d)", i, len(ch.Data), c.cs))
 		}
 		if ch.FileChunkId == 0 {
 			perFile[ch.Filepath] = nil
